@@ -89,8 +89,11 @@ def work(job):
         res["states"] = c.nstates
         biggest = max([o.str_size for o in c.outs if getattr(o, "str_size", None)] or [0])
         nwalks = 6 if tier == "quick" else 20
-        for wi in range(nwalks + 2):
-            if wi < nwalks:
+        extra = inputs.extra(prog)
+        for wi in range(nwalks + 2 + len(extra)):
+            if wi >= nwalks + 2:
+                data = extra[wi - nwalks - 2]
+            elif wi < nwalks:
                 data = inputs.random_walk(c.dfa, rng, rng.randint(1, 40), p_follow=0.92)
             else:
                 # long walks that follow the machine closely: reach and pass the capacities
